@@ -187,6 +187,11 @@ func (s *TrackLocalStaticRTP) WriteRTP(p *rtp.Packet) error {
 	defer resetPacketPoolAllocation(packet)
 
 	*packet = *p
+	// Interceptors in a binding's write stream (e.g. TWCC) set header extensions in place:
+	// don't let them write through to the caller's packet.
+	if len(p.Header.Extensions) > 0 {
+		packet.Header.Extensions = append([]rtp.Extension(nil), p.Header.Extensions...)
+	}
 
 	return s.writeRTP(packet)
 }
